@@ -169,6 +169,17 @@ def monStep (ws : List String) : Option (List String) :=
     let bad := parts.filter (fun p => !p.2)
     some (if Afkak.Monitor.C08.mirrorOk before after bs ts all closed && Afkak.Monitor.C08.wf after
       then ["ok"] else ["fail " ++ ",".intercalate (bad.map (·.1))])
+  | "mon-covered" :: bs :: ts :: rest => do
+    -- client-A (C08, session 5): the part of the mirror monitor that also holds of a metadata-reply step in which
+    -- closing a dropped broker's client failed requests (and so reset the cache) BEFORE the response was merged:
+    -- listed brokers at the response's address, every covered topic equal to the response
+    let after ← parseCache rest
+    let bs ← parseBrokers bs
+    let ts ← parseTopics ts
+    let parts := [("brokers", Afkak.Monitor.C08.brokersMirror after bs),
+      ("topics", (Afkak.Monitor.C08.respTopics ts).all (fun e => Afkak.Monitor.C08.topicMirror after e.2))]
+    let bad := parts.filter (fun p => !p.2)
+    some (if bad.isEmpty then ["ok"] else ["fail " ++ ",".intercalate (bad.map (·.1))])
   | "mon-invalidate" :: g :: examined :: rest => do
     let after ← parseCache rest
     some (verdict (Afkak.Monitor.C08.invalidateOk after (parseGroup g) (← parseKeys examined)))
